@@ -39,8 +39,8 @@ def _witnesses():
 
     ms = bmulti_synth.ms_mod
     return [
-        ("multiStruct", "cwknWc", dict(action={"type": ms._fix_new_line_after_comma, "action": "remove"}), "cwc", "C02.multiStruct_commentLost"),
-        ("multiStruct", "cwknWc", dict(action={"type": ms._fix_last_paren_new_line, "action": "remove"}), "cc", "C02.multiStruct_commentLost (last_paren)"),
+        ("multiStruct", "cwknWc", dict(action={"type": ms._fix_new_line_after_comma, "action": "remove"}), "cwknWc", "C02.multiStruct_comment_region_kept (was multiStruct_commentLost before the fix: commits)"),
+        ("multiStruct", "cwknWc", dict(action={"type": ms._fix_last_paren_new_line, "action": "remove"}), "cwknWc", "C02.multiStruct_comment_region_kept (last_paren)"),
         ("multiStruct", "abc", dict(action={"type": ms._fix_last_paren_new_line, "action": "remove"}), "ac", "C01.multiStruct_remove_changes_code (1)"),
         ("multiStruct", "c", dict(action={"type": ms._fix_last_paren_new_line, "action": "remove"}), "cc", "C01.multiStruct_remove_changes_code (2): one token doubled"),
         ("simple", "awknWb", dict(action={"type": "new_line_after_assign", "action": "remove"}), "awb", "C02.simple_commentLost"),
@@ -65,11 +65,11 @@ FILES = [
     ("simple_commentLost", {}, "architecture a of e is\nbegin\n  x <= -- c\n    b;\nend architecture a;\n", ("multiline_simple_structure", "commentLost")),
     ("fixpy_commentAbsorbsCode", {}, "architecture a of e is\n  procedure p -- c\n  (a : integer);\nbegin\nend architecture a;\n", ("multiline_subprogram_specification_structure", "commentAbsorbsCode")),
     ("multiStruct_commentLost_comma", {"constant_016": {"new_line_after_comma": "no", "assign_on_single_line": "ignore"}},
-     "architecture rtl of fifo is\n\n  constant c_rom : t_rom :=\n  (\n    1, -- one\n    2  -- two\n  );\n\nbegin\n\nend architecture rtl;\n", ("multiline_structure", "commentLost")),
+     "architecture rtl of fifo is\n\n  constant c_rom : t_rom :=\n  (\n    1, -- one\n    2  -- two\n  );\n\nbegin\n\nend architecture rtl;\n", None),  # repaired by the fix: commits c6e66e8 / 8e6c5bb (was multiline_structure/commentLost)
     ("multiStruct_commentLost_last_paren", {"constant_016": {"last_paren_new_line": "no", "assign_on_single_line": "ignore"}},
-     "architecture rtl of fifo is\n\n  constant c_rom : t_rom :=\n  (\n    1, -- one\n    2  -- two\n  );\n\nbegin\n\nend architecture rtl;\n", ("multiline_structure", "commentLost")),
+     "architecture rtl of fifo is\n\n  constant c_rom : t_rom :=\n  (\n    1, -- one\n    2  -- two\n  );\n\nbegin\n\nend architecture rtl;\n", None),  # repaired by the fix: commits c6e66e8 / 8e6c5bb (was multiline_structure/commentLost)
     ("multiStruct_commentLost_concurrent", {"concurrent_012": {"new_line_after_comma": "no", "assign_on_single_line": "ignore"}},
-     "architecture rtl of fifo is\nbegin\n\n  x <=\n  (\n    1, -- one\n    2\n  );\n\nend architecture rtl;\n", ("multiline_structure", "commentLost")),
+     "architecture rtl of fifo is\nbegin\n\n  x <=\n  (\n    1, -- one\n    2\n  );\n\nend architecture rtl;\n", None),  # repaired by the fix: commits c6e66e8 / 8e6c5bb (was multiline_structure/commentLost)
     ("multiStruct_default_keeps_comments", {}, "architecture rtl of fifo is\n\n  constant c_rom : t_rom :=\n  (\n    1, -- one\n    2  -- two\n  );\n\nbegin\n\nend architecture rtl;\n", None),
 ]
 
